@@ -38,11 +38,27 @@ func init() {
 	Register("C04", &CheckInfo{Fn: func(rc *RunCtx) { runSkeletons(rc, []Monitor{EscrowMonitor{Probe: true}}, kOf(rc)) }, Level: "model_checking",
 		Rule:        sharedRule + "oracle at every block boundary: oracle account == sum of open-query tips, tips escrow >= sum of selector credits, no negative credit, bridge account == 0, dispute account >= escrowed stake + fees of unsettled disputes; branch probe: every entitled claim (WithdrawTip, WithdrawFeeRefund, ClaimReward) in forward and reverse order never fails for lack of funds",
 		QuickBudget: 6 * time.Minute, ThoroughBudget: 25 * time.Minute})
-	Register("C05", &CheckInfo{Fn: func(rc *RunCtx) { runSkeletons(rc, []Monitor{PoolMonitor{}}, kOf(rc)) }, Level: "model_checking",
-		Rule:        sharedRule + "oracle after every accepted operation and block: bonded pool >= tokens of bonded validators, not-bonded pool >= tokens of other validators + unbonding entries, SDK NonNegativePower/PositiveDelegation/DelegatorShares invariants, pool excess grows by at most one unit per returned entry",
+	Register("C05", &CheckInfo{Fn: func(rc *RunCtx) {
+		mons := []Monitor{PoolMonitor{}}
+		depth := 4
+		if !rc.Quick() {
+			depth = 6
+		}
+		keep := func(l string) bool {
+			return hasAnyPrefix(l, "Propose(Payer,R1rep,warning,full)", "Propose(Payer,R1rep,major,full)", "Propose(Payer,R2rep,minor,full)", "Propose(R2,R1rep,warning,frombond)", "AddFee(R2,last,rest,frombond)",
+				"Undelegate(R1,V1,half)", "Redelegate(R1,V1->V2,half)", "Delegate(Payer,V3,150)", "WithdrawTip(R1,V1)", "FeeRefund(R2)", "Vote(Team,invalid)", "Vote(Team,support)")
+		}
+		prep := []string{"Tip(cyc,1000)", "Submit(R1,cyc,std)", "Submit(R2,cyc,std200)", b1, b1, b1}
+		gaps := []time.Duration{time.Second, 72*time.Hour + time.Millisecond}
+		hz := []time.Duration{72*time.Hour + time.Millisecond, time.Second}
+		focusedDFSX(rc, "pool-dfs-slashed", Config{}, false, prep, keep, gaps, mons, depth, hz, true)
+		focusedDFSX(rc, "pool-dfs-slashed-maxval2", Config{ValStakes: []int64{5000, 3000, 2900}, MaxValidators: 2}, false, prep, keep, gaps, mons, depth, hz, true)
+		runSkeletons(rc, mons, kOf(rc))
+	}, Level: "model_checking",
+		Rule:        sharedRule + "plus an exhaustive DFS depth 4 (quick) / 6 (thorough) in two validator-cap worlds over {validator slashed 1% by evidence (exchange rate != 1), disputes warning/major/minor/from-bond, add-fee from bond, undelegate/redelegate half, bonding-set change, withdraw tip, fee refund, team votes, Block 1s/3d+1ms}; oracle after every accepted operation and block: bonded pool >= tokens of bonded validators, not-bonded pool >= tokens of other validators + unbonding entries, SDK NonNegativePower/PositiveDelegation/DelegatorShares invariants, pool excess grows by at most one unit per returned entry",
 		QuickBudget: 6 * time.Minute, ThoroughBudget: 25 * time.Minute})
 	Register("C08", &CheckInfo{Fn: func(rc *RunCtx) { runSkeletons(rc, []Monitor{AggMonitor{}}, kOf(rc)) }, Level: "model_checking",
-		Rule:        sharedRule + "oracle on every transition: the Aggregates collection changes only by appending a key with a larger timestamp and index+1, or by Flagged false->true",
+		Rule:        sharedRule + "oracle on every transition: the Aggregates collection changes only by appending a key with a larger timestamp and index+1, or by Flagged false->true; whenever the collection changed, every lookup (current, before, before-by-reporter, by index 0..len+1, by timestamp, timestamp before/after) is compared with the chronological list model at one probe per region of the timestamp axis, and the previous/next timestamps of every new attestation snapshot with the list neighbours",
 		QuickBudget: 6 * time.Minute, ThoroughBudget: 25 * time.Minute})
 	Register("C19", &CheckInfo{Fn: func(rc *RunCtx) { runSkeletons(rc, []Monitor{FrameMonitor{}}, kOf(rc)) }, Level: "model_checking",
 		Rule:        sharedRule + "oracle around every accepted tx: privileged messages signed by a non-authority are never accepted; for every account other than the signers (liquid balance, delegated+unbonding stake, reward credit, selected reporter) is not reduced/changed except the three listed exceptions; registered specs change only via MsgUpdateDataSpec",
@@ -51,16 +67,25 @@ func init() {
 
 // focusedDFS runs an exhaustive DFS over a sub-alphabet (selected by label predicate) from the standard set-up.
 func focusedDFS(rc *RunCtx, name string, cfg Config, mintOn bool, prep []string, keep func(label string) bool, gaps []time.Duration, mons []Monitor, depth int, horizon []time.Duration) {
+	focusedDFSX(rc, name, cfg, mintOn, prep, keep, gaps, mons, depth, horizon, false)
+}
+
+// focusedDFSX optionally adds the environment events (validator slashed by x/slashing evidence).
+func focusedDFSX(rc *RunCtx, name string, cfg Config, mintOn bool, prep []string, keep func(label string) bool, gaps []time.Duration, mons []Monitor, depth int, horizon []time.Duration, env bool) {
 	if rc.Replay != nil && rc.Replay.Scenario != name {
 		return
 	}
 	w := NewWorld(cfg)
 	c := StdSetup(w, mintOn)
 	full := FullAlphabet(c)
+	if env {
+		base := full
+		full = func(w *World) []Event { return append(base(w), EnvEvents(w)...) }
+	}
 	alpha := func(w *World) []Event {
 		var out []Event
 		for _, ev := range full(w) {
-			if keep(ev.Label) {
+			if keep(ev.Label) || ev.Tag == "env/slash" {
 				out = append(out, ev)
 			}
 		}
@@ -126,12 +151,12 @@ func hasAnyPrefix(s string, ps ...string) bool {
 
 func init() {
 	Register("C07", &CheckInfo{Level: "model_checking", QuickBudget: 7 * time.Minute, ThoroughBudget: 30 * time.Minute,
-		Rule: "round monitor derived from the statement (accepted report => tip>0 or scheduled-by-rotation or deposit, height <= expiry, not jailed, stake >= minimum recomputed from staking, never a withdrawal query; later report replaces the earlier; at EndBlock exactly the rounds with reports whose window closed produce one aggregate each, leave the store and their tips leave the oracle account; untouched tips stay; the cycle index changes only with no open window and then to (i+1) mod n) evaluated on (a) an exhaustive DFS depth 5 (quick) / 7 (thorough) over {Tip cyc/next/modeq/modeq2/dep/wd, Submit R1/R2 on cyc/next/modeq/dep/wd, gov cyclelist reorder/shrink/grow, gov spec window 0/5, min-stake change, Block 1s} from the standard state with state-hash dedup, and (b) all <=k-deviation histories around the shared skeletons",
+		Rule: "round monitor derived from the statement (accepted report => tip>0 or scheduled-by-rotation or deposit, height <= expiry, not jailed, stake >= minimum recomputed from staking, never a withdrawal query; later report replaces the earlier; at EndBlock exactly the rounds with reports whose window closed produce one aggregate each, leave the store and their tips leave the oracle account; untouched tips stay; the cycle index changes only with no open window and then to (i+1) mod n) evaluated on (a) an exhaustive DFS depth 4 (quick) / 6 (thorough) over {Tip cyc/next/modeq/modeq2/dep/wd, Submit R1/R2 on cyc/next/modeq/dep/wd, gov cyclelist reorder/shrink/grow, gov spec window 0/5, min-stake change, Block 1s} from the standard state with state-hash dedup, and (b) all <=k-deviation histories around the shared skeletons",
 		Fn: func(rc *RunCtx) {
 			mons := []Monitor{RoundMonitor{}}
-			depth := 5
+			depth := 4
 			if !rc.Quick() {
-				depth = 7
+				depth = 6
 			}
 			focusedDFS(rc, "round-dfs", Config{}, true, nil, func(l string) bool {
 				return hasAnyPrefix(l, "Tip(cyc", "Tip(next", "Tip(modeq,50)", "Tip(modeq2", "Tip(dep1", "Tip(wd1", "Submit(R1,cyc,std)", "Submit(R2,cyc,std200)", "Submit(R1,next", "Submit(R1,modeq,std)", "Submit(R2,modeq,std200)",
